@@ -11,6 +11,7 @@ import (
 	"runtime/debug"
 	"strings"
 
+	"github.com/pokt-network/pocket-core/codec"
 	appsTypes "github.com/pokt-network/pocket-core/x/apps/types"
 	nodesTypes "github.com/pokt-network/pocket-core/x/nodes/types"
 	pocketTypes "github.com/pokt-network/pocket-core/x/pocketcore/types"
@@ -147,6 +148,22 @@ func (e *Executor) offchain(op MidOp) {
 			if len(res.Value) > 600 {
 				res.Value = res.Value[:600]
 			}
+		case "features":
+			// the activation predicates of the codec package, evaluated in this process: Arg = comma separated feature
+			// names, Arg2 = comma separated heights; also the raw schedule globals
+			cdc := appCodec()
+			out := map[string]interface{}{"upgrade_height": codec.UpgradeHeight, "old_upgrade_height": codec.OldUpgradeHeight, "codec_upgrade_height": codec.GetCodecUpgradeHeight()}
+			act := map[string][]bool{}
+			for _, f := range strings.Split(op.Arg, ",") {
+				for _, hs := range strings.Split(op.Arg2, ",") {
+					var hh int64
+					fmt.Sscan(hs, &hh)
+					act[f] = append(act[f], cdc.IsAfterNamedFeatureActivationHeight(hh, f))
+				}
+			}
+			out["active"] = act
+			b, _ := json.Marshal(out)
+			res.Value, res.Digest = string(b), dig(out)
 		case "dispatch":
 			hdr := pocketTypes.SessionHeader{ApplicationPubKey: op.Arg, Chain: op.Arg2, SessionBlockHeight: op.Height}
 			r, err := n.App.HandleDispatch(hdr)
